@@ -52,6 +52,10 @@ pub(crate) struct PoolState<const P: usize> { pub origin: u32, pub free: u32, pu
     pool.free_list.snapshot().1
 }
 
+impl<T: Debug + Send + Sync, FL: MoveContainer<u32> + RingModel<P>, const P: usize> OgreArrayPoolAllocator<T, FL, P> {
+    #[allow(dead_code)] pub(crate) fn free_list_quiescent(&self) -> bool { self.free_list.quiescent() }
+}
+
 #[cfg(kani)]
 pub(crate) mod proofs {
     use super::*;
